@@ -85,10 +85,24 @@ C16Verdict(e) ==
 \* C13 ("value and data setters ... either performs exactly the change DOM Level 1 specifies or fails with the specified
 \* exception class (... index size ...); never panics; a call that fails leaves the document observably unchanged"): the
 \* same judgement for the calls that are mutators; what length() answers is a read and stays with C16
+\* Catalogued deviation "attr-value-setter-parses-references": Attr::set_value (and set_attribute) parse their argument
+\* as the literal of an attribute value - references are expanded - where DOM Level 1 stores the string as it is
+\* ("creates a Text node with the unparsed contents of the string").  As-is model for the arguments the machine
+\* offers: the value afterwards is the argument with its references replaced.
+RefDecoded(a) ==
+  CASE a = <<38, 97, 109, 112, 59>> -> <<38>>                 \* &amp;   -> &
+    [] a = <<38, 35, 54, 48, 59>> -> <<60>>                 \* &#60;   -> <
+    [] a = <<97, 38, 97, 109, 112, 59, 98>> -> <<97, 38, 98>>         \* a&amp;b -> a&b
+    [] OTHER -> a
 C13CdVerdict(e) ==
   IF IsRead(e.call.op) THEN OKV
   ELSE LET v == C16Verdict(e)
-       IN  IF v.v = "VIOLATION" /\ v.why = "length() is not the number of characters" THEN OKV ELSE v
+       IN  IF v.v = "VIOLATION" /\ v.why = "length() is not the number of characters" THEN OKV
+           ELSE IF /\ v.v = "VIOLATION" /\ "attr-value-setter-parses-references" \in Open
+                   /\ e.variant = "attr/set" /\ e.call.op = "set" /\ "ok" \in DOMAIN e.out
+                   /\ RefDecoded(e.call.a) # e.call.a /\ e.post = RefDecoded(e.call.a)
+                THEN [v |-> "attr-value-setter-parses-references", a |-> e.call.a, post |-> e.post]
+           ELSE v
 
 \* ---------------------------------------------------------------------------------------------
 \* C15: after a call that reports success the document serializes, parses, and denotes what the DOM reports
